@@ -37,6 +37,13 @@ WK = 'csep.core.poisson_evaluations._w_test_ndarray'
 def dict_return(P, f):
     ex = Expander(P, f)
     rets = [r for r in returns(f) if r.value is not None]
+    if len(rets) > 1:
+        # early exits that hand back a dictionary of constants (nan / None / 0) are not results: they are reported by rule_defined;
+        # the formulas are read from the one return that computes
+        const_rets = [r for r in rets if isinstance(r.value, ast.Dict) and all(
+            not any(isinstance(x, ast.Name) and x.id not in ('numpy', 'np', 'math', 'float') for x in ast.walk(v_)) for v_ in r.value.values)]
+        if len(rets) - len(const_rets) == 1:
+            rets = [r for r in rets if r not in const_rets]
     if len(rets) != 1:
         raise Inconclusive('%s has %d returns' % (f.short, len(rets)))
     e = ex.expand(rets[0].value)
@@ -480,6 +487,23 @@ def rule_defined(ck):
              o.fail('`%s` takes an extremum of `%s`, which is empty for the smallest admissible sample: ValueError (zero-size array to reduction '
                     'operation) instead of a result' % (u(c)[:60], u(shorter[0])[:50])))
     ck.extra['extremum_reductions_of_shortened_arrays'] = n
+    # every admissible sample gets the computed result: no early exit that hands back constants (a warning for a small sample is a warning,
+    # not a refusal), and no floating-point condition of the computation turned into an exception (0/0 of a degenerate variance is a nan in
+    # the result, not an error about the rates)
+    for q in (WK, TK, BK):
+        f = P.func(q)
+        rets = [r for r in returns(f) if r.value is not None]
+        early = [r for r in rets if isinstance(r.value, ast.Dict) and all(
+            not any(isinstance(x, ast.Name) and x.id not in ('numpy', 'np', 'math', 'float') for x in ast.walk(v_)) for v_ in r.value.values)]
+        o = ck.ob('C08-D5.result', f, 'every sample gets the computed statistics', early[0] if early else f.node)
+        (o.fail('`%s` leaves %s with constants instead of the statistics: a sample the property admits (two events for the T-test, one '
+                'non-null difference for the W-test) gets no result' % (u(early[0])[:70], f.short)) if early and len(rets) > len(early) else o.ok())
+        traps = [c for c in all_nodes(f) if isinstance(c, ast.Call) and (call_name(c) or '').endswith('errstate')
+                 and any(const_value(k.value) == 'raise' for k in c.keywords)]
+        handlers = [h for h in all_nodes(f) if isinstance(h, ast.ExceptHandler) and h.type is not None and 'FloatingPointError' in u(h.type)]
+        o = ck.ob('C08-D5.fperror', f, 'floating-point conditions stay values', traps[0] if traps else f.node)
+        (o.fail('`%s` makes numpy raise inside %s: a zero variance (identical or proportional forecasts) or a zero rate then aborts the test '
+                'instead of giving the nan / inf the formulas define' % (u(traps[0])[:60], f.short)) if traps or handlers else o.ok())
 
 
 RULES = [rule_t, rule_binary_t, rule_w, rule_public_t, rule_public_binary, rule_public_w, rule_rates_source, rule_totals_fresh, rule_precision, rule_defined]
